@@ -261,6 +261,9 @@ def s_opts(draw, flavour):
         o["init"] = "default"
     if flavour == "hd1" and o["init"] == "ones":
         o["init"] = "default"
+    if o["distance"] == "cosine":
+        # documented as 'less precision' (floor ~1e-8): a damped run would stop 100x closer to the tolerance
+        o["damping"] = 0.0
     return o
 
 
@@ -1104,7 +1107,7 @@ EXP_ROUTES = {
 def s_expansions(draw, tier):
     flavour = draw(st.sampled_from(["d1", "d1", "hd1", "l1", "d2", "d2", "l2"]))
     two = flavour in ("d2", "l2")
-    net = draw(s_net(tier, hyper=False, groups=flavour in ("l1", "l2"),
+    net = draw(s_net(tier, hyper=flavour == "hd1", groups=flavour in ("l1", "l2"),
                      phys=draw(st.sampled_from(["opt", "all"])) if two else "none"))
     o = draw(s_opts(flavour))
     return {"flavour": flavour, "net": net, "opts": o, "route": draw(st.sampled_from(EXP_ROUTES[flavour])),
